@@ -205,7 +205,23 @@ def _c09_loops(o, driver, rng):
 
 
 PROPERTIES["C09"] = {"run": _sched(_mon("C09"), extra=_c09_loops), "assumptions": SCHED_ASSUME}
-PROPERTIES["C10"] = {"run": _sched(_mon("C10")), "assumptions": SCHED_ASSUME}
+def _c10_rt(o, driver, rng):
+    """lazy_stepping in real-time mode (rt_factor given; virtual clock): the run-ahead bound is the same as without a clock."""
+    import sched_corr as scorr
+    n_sc, n_sched = (60, 2) if o.tier == "quick" else (1200, 4)
+    scs = []
+    for _ in range(n_sc):
+        sc = scorr.gen_scenario(rng, rt=True)
+        sc["lazy"] = True
+        sc["rt_strict"] = False
+        scs.append(sc)
+    res = scorr.run_sched_suite(driver, rng, n_sc, n_sched, name="real-time", monitor=_mon("C10"), scenarios=scs)
+    o.suites.append(res)
+    o.violations.extend(res["violations"])
+    o.monitor_stats["rt_traces_monitored"] = res["traces"]
+
+
+PROPERTIES["C10"] = {"run": _sched(_mon("C10"), extra=_c10_rt), "assumptions": SCHED_ASSUME}
 def _c13_remote(o, driver, rng):
     """The same law with the faulty simulator behind the remote transport (subprocess, JSON): a malformed next-step reply of a
     time-based simulator's first step must abort run() with a SimulationError and the simulator must not be stepped again."""
